@@ -1234,6 +1234,11 @@ def upper_bound(n, fam, depth=0):
     if k == "Binary" and n["op"] == "Rem":
         d = int_lit(n["r"])
         return d - 1 if d is not None and d > 0 else None
+    if k == "Binary" and n["op"] == "BitAnd":
+        # x & m <= m (and <= x)
+        ms_ = [int_lit(n["l"]), int_lit(n["r"])]
+        ms_ = [m_ for m_ in ms_ if m_ is not None and m_ >= 0]
+        return min(ms_) if ms_ else None
     if k == "Binary" and n["op"] == "Sub":
         a = int_lit(n["l"])
         b = upper_bound(n["r"], fam, depth + 1)
